@@ -302,11 +302,23 @@ func (res *Response) ReadFrom(r io.Reader) (n int64, err error) {
 	res.WriteHeader(http.StatusOK)
 	res.hasBody = true
 	res.eoncodeHead()
-	_, err = c.Write(*res.buffer)
-	mempool.Free(res.buffer)
-	res.buffer = nil
-	if err != nil {
-		return 0, err
+	// the head may be gone already: sent, or moved into the body buffer
+	// by an earlier Write (or freed by a Flush that failed).
+	if res.buffer != nil {
+		_, err = c.Write(*res.buffer)
+		mempool.Free(res.buffer)
+		res.buffer = nil
+		if err != nil {
+			return 0, err
+		}
+	}
+	// what has been written so far goes out before the reader's bytes.
+	if res.bodyBuffer != nil && len(*res.bodyBuffer) > 0 {
+		_, err = c.Write(*res.bodyBuffer)
+		*res.bodyBuffer = (*res.bodyBuffer)[:0]
+		if err != nil {
+			return 0, err
+		}
 	}
 
 	src := r
